@@ -15,6 +15,7 @@ answer everywhere" does not pass.
 """
 import json
 import os
+import re
 import random
 import subprocess
 import sys
@@ -97,7 +98,28 @@ class Gen:
         r.shuffle(order)
         ret = "[" + ", ".join(inner_vals[i][0] for i in order) + "]"
         expected = [inner_vals[i][1] for i in order]
-        src = "var outer = function(%s){ %s return %s; }; outer(%s)" % (", ".join(params), " ".join(lines), ret, ", ".join(map(str, args)))
+        # functions whose body re-declares their own name next to other locals (slot order of the
+        # name is decided by the compiler's scope analysis)
+        selfn = self.names(1)[0]
+        o1, o2 = self.names(2)
+        kind = r.choice(["var-own-name", "inner-function-own-name", "param-own-name"])
+        if kind == "var-own-name":
+            lines.append("function %s(){ var %s = 1; var t0 = typeof %s; var %s; var %s = 2; return t0 + ':' + (%s + %s); }" % (selfn, o1, selfn, selfn, o2, o1, o2))
+            inner_vals.append(("%s()" % selfn, "function:3"))
+        elif kind == "inner-function-own-name":
+            lines.append("function %s(lvl_){ var %s = 5; if (lvl_ > 0) { return %s(lvl_ - 1) + 1; } function %s_in(){ return %s; } var %s = 7; return %s_in() + %s; }" % (selfn, o1, selfn, selfn, o1, o2, selfn, o2))
+            inner_vals.append(("%s(2)" % selfn, 14))
+        else:
+            lines.append("function %s(%s){ var %s = %s + 1; var %s = typeof %s; return %s + ':' + %s; }" % (selfn, o1, o2, o1, selfn + "_t", selfn, selfn + "_t", o2))
+            inner_vals.append(("%s(4)" % selfn, "function:5"))
+        order = list(range(len(inner_vals)))
+        r.shuffle(order)
+        ret = "[" + ", ".join(inner_vals[i][0] for i in order) + "]"
+        expected = [inner_vals[i][1] for i in order]
+        mutate = ""
+        if r.random() < 0.25:
+            mutate = " Math.zzq = 1; Object.prototype.zzq = 2; var leak = 3; JSON.zzq = 4; Math.PI2 = 1;"
+        src = "var outer = function(%s){ %s return %s; };%s outer(%s)" % (", ".join(params), " ".join(lines), ret, mutate, ", ".join(map(str, args)))
         meta = {"params": len(params), "locals": len(locs) + 2, "closures": len(inner_names) + 2}
         return src, expected, meta
 
@@ -186,8 +208,15 @@ def main(chk):
                 break
         if bad:
             continue
+        fp = base[i][2] if len(base[i]) > 2 else None
+        self_mutating = gen and "Math.zzq = 1;" in src
+        if fp is not None and not self_mutating and not (not gen and re.search(r"zzq|leak|Math\.\w+\s*=|prototype\.\w+\s*=|delete\s+Math", src)):
+            pristine = ["undefined"] * 12 + ["undefined", "number"]
+            if fp != pristine:
+                chk.violation("fresh-context-not-pristine|%s" % ("generated" if gen else "corpus"), case, pristine, fp, sub="isolation")
+                continue
         if gen:
-            exp = ["value", ["a", [["n", engine.numkey(float(v))] for v in expected[i]]]]
+            exp = ["value", ["a", [["s", v] if isinstance(v, str) else ["n", engine.numkey(float(v))] for v in expected[i]]]]
             if base[i][0] != exp:
                 chk.violation("generated-program-wrong-value", case, exp, base[i][0], sub="self-check")
                 continue
